@@ -101,6 +101,10 @@ def jobs(tier, seed):
                   {"shapes": [F([S(3), S(1)])], "opts": {"continue_after_failed_step": True, "out_dom": {"*": [0, 3]}, "stop": "sym"},
                    "checks": ["verdict"]},
                   reach=["C01.no-false-green(events)"], min_paths=20, cost=300, validate=80))
+    # a step that marks its own scenario as skipped and then fails (outcome 9): the failure still counts
+    js.append(Job("skip-then-fail", "vlib.stage1:h_stage1",
+                  {"shapes": [F([S(3), S(1)])], "opts": {"out_dom": {"f0.i0": [8, 9], "*": [0, 1]}, "undef": False, "stop": "sym"}, "checks": ["verdict"]},
+                  reach=["C01.no-false-green(events)"], min_paths=8, cost=100, validate=40))
     # coroutine steps run through behave.api.async_step (plain decorator and the call form with a timeout)
     for nm, mode in (("async", True), ("async-timeout", "timeout")):
         js.append(Job(nm, "vlib.stage1:h_stage1",
